@@ -1102,19 +1102,7 @@ class Evaluator:
         if fn in ("var_pop", "var_samp", "stddev_pop", "stddev_samp"):
             if k not in ("int", "real"):
                 raise Unsupported("%s %s" % (fn, k))
-            rv = [(m, z3.ToReal(v.val) if k == "int" else v.val) for m, v in vals]
-            n = z3.ToReal(z3.If(cnt == 0, 1, cnt))
-            s = z3.Sum([z3.If(m, v, z3.RealVal(0)) for m, v in rv])
-            mean = s / n
-            ss = z3.Sum([z3.If(m, (v - mean) * (v - mean), z3.RealVal(0)) for m, v in rv])
-            samp = fn.endswith("samp")
-            den = z3.ToReal(z3.If(cnt <= 1, 1, cnt - 1)) if samp else n
-            var = ss / den
-            nl = z3.Or(none, cnt <= 1) if samp else none
-            if fn.startswith("var"):
-                return SV("real", nl, var)
-            f = self.ctx.uf("sqrt", z3.RealSort(), z3.RealSort())
-            return SV("real", nl, f(var))
+            return variance_symbol(self.ctx, fn, [(m, z3.ToReal(v.val) if k == "int" else v.val) for m, v in vals], cnt, none)
         raise Unsupported("aggregate %s" % fn)
 
     def _agg_node(self, e, sc, fn, arg=None, filt=None):
@@ -1195,7 +1183,8 @@ class Evaluator:
         # ARG_MIN(val, key): val of the row with the smallest non-null key
         best = None
         for (m, v), (_, kx) in zip(rows_v, rows_k):
-            mm = z3.And(m, z3.Not(kx.null))
+            # DuckDB arg_min/arg_max ignore rows where the argument OR the ordering value is NULL
+            mm = z3.And(m, z3.Not(kx.null), z3.Not(v.null))
             if best is None:
                 best = (mm, kx, v)
                 continue
@@ -1428,3 +1417,18 @@ def load_macros(sql_texts):
                 continue
             out[name.lower()] = (ps, b)
     return out, skipped
+
+
+def variance_symbol(ctx, fn, rv, cnt, none):
+    """var/stddev as shared symbols over (count, sum, sum of squares): linear for the solver; which datapoints enter
+    the aggregate and the null rules are decided, the arithmetic of the variance itself is trusted."""
+    R_, I_ = z3.RealSort(), z3.IntSort()
+    sq = ctx.uf("sq", R_, R_)
+    s_ = z3.Sum([z3.If(m, v, z3.RealVal(0)) for m, v in rv])
+    q_ = z3.Sum([z3.If(m, sq(v), z3.RealVal(0)) for m, v in rv])
+    samp = fn.endswith("samp")
+    var = ctx.uf("var_samp" if samp else "var_pop", I_, R_, R_, R_)(cnt, s_, q_)
+    nl = z3.Or(none, cnt <= 1) if samp else none
+    if fn.startswith("var"):
+        return SV("real", nl, var)
+    return SV("real", nl, ctx.uf("sqrt", R_, R_)(var))
